@@ -100,6 +100,7 @@ func (p *InPort) Open(proc *process.Process) *packet.Reader {
 		return packet.ClosedReader
 	}
 
+	verifYield(11)
 	p.mu.RLock()
 	reader, ok := p.readers[proc]
 	p.mu.RUnlock()
@@ -123,6 +124,7 @@ func (p *InPort) Open(proc *process.Process) *packet.Reader {
 
 	p.mu.Unlock()
 
+	verifYield(12)
 	proc.AddExitHook(process.ExitFunc(func(_ error) {
 		p.mu.Lock()
 		delete(p.readers, proc)
